@@ -41,7 +41,7 @@ type Value struct {
 	Str       *string // used by ValueStr and ValueRegex
 	Num       *float64
 	Bool      *bool
-	Array     []*Cell
+	Array     *[]*Cell
 	Obj       *map[string]*Cell
 	NativeFn  func(*Evaluator, []*Value, *Value) (*Value, error)
 	Fn        *ExprFunction
@@ -55,7 +55,7 @@ func NewValue(srcVal interface{}) Value {
 	case []*Cell:
 		return Value{
 			Tag:   ValueArray,
-			Array: val,
+			Array: &val,
 			Proto: getArrayPrototype(),
 		}
 	case []interface{}:
@@ -65,7 +65,7 @@ func NewValue(srcVal interface{}) Value {
 		}
 		return Value{
 			Tag:   ValueArray,
-			Array: arr,
+			Array: &arr,
 			Proto: getArrayPrototype(),
 		}
 	case []string:
@@ -75,7 +75,7 @@ func NewValue(srcVal interface{}) Value {
 		}
 		return Value{
 			Tag:   ValueArray,
-			Array: arr,
+			Array: &arr,
 			Proto: getArrayPrototype(),
 		}
 	case map[string]interface{}:
@@ -128,7 +128,7 @@ func NewArray() Value {
 	arr := make([]*Cell, 0)
 	return Value{
 		Tag:   ValueArray,
-		Array: arr,
+		Array: &arr,
 		Proto: getArrayPrototype(),
 	}
 }
@@ -182,10 +182,6 @@ func (v *Value) PrettyString(quote bool) string {
 // check if two value slices have the same underlying array
 // borrowed from go's math library
 // https://go.dev/src/math/big/nat.go#L374
-func alias(x, y []*Cell) bool {
-	return cap(x) > 0 && cap(y) > 0 && &x[0:cap(x)][cap(x)-1] == &y[0:cap(y)][cap(y)-1]
-}
-
 func isSame(a *Value, b *Value) bool {
 	if a.Tag != b.Tag {
 		return false
@@ -194,7 +190,7 @@ func isSame(a *Value, b *Value) bool {
 		return a.Obj == b.Obj
 	}
 	if a.Tag == ValueArray && b.Tag == ValueArray {
-		return alias(a.Array, b.Array)
+		return a.Array == b.Array
 	}
 	return false
 }
@@ -227,7 +223,7 @@ func (v *Value) prettyStringInteral(rootValues []*Value, quote bool, checkCircul
 	case ValueArray:
 		var sb strings.Builder
 		sb.WriteByte('[')
-		for index, cell := range v.Array {
+		for index, cell := range *v.Array {
 			if index > 0 {
 				sb.WriteString(", ")
 			}
@@ -264,7 +260,7 @@ func (v *Value) GetMember(member Value) (*Cell, error) {
 			return v.Proto.GetMember(member)
 		}
 		index := int(*member.Num)
-		arr := v.Array
+		arr := *v.Array
 
 		if index < 0 {
 			index = len(arr) + index
@@ -330,11 +326,11 @@ func (v *Value) SetMember(member Value, cell *Cell) (*Cell, error) {
 				return nil, fmt.Errorf("index too large to auto-fill array")
 			}
 
-			verifCharge(index - len(v.Array) + 1)
+			verifCharge(index - len(*v.Array) + 1)
 			// fill the array with empty cells up to the index
-			for i := len(v.Array); i <= index; i++ {
+			for i := len(*v.Array); i <= index; i++ {
 				item = NewCell(NewValue(nil))
-				v.Array = append(v.Array, item)
+				*v.Array = append(*v.Array, item)
 			}
 		}
 		item.Value = cell.Value
@@ -451,8 +447,8 @@ func (v *Value) toGoValueInterval(rootValues []*Value, checkCircularReference bo
 		return *v.Num, nil
 	case ValueArray:
 		// not a nil slice: an empty array has to become [] in JSON, not null
-		array := make([]interface{}, 0, len(v.Array))
-		for _, item := range v.Array {
+		array := make([]interface{}, 0, len(*v.Array))
+		for _, item := range *v.Array {
 			val, err := item.Value.toGoValueInterval(append(rootValues, v), true)
 			if err != nil {
 				return nil, err
